@@ -312,7 +312,7 @@ class RBFEvaluator(FuncEvaluator, XCEvalSerializable):
         X1full = X1
         X1 = np.ascontiguousarray(X1full[..., self._indexes])
         if res is None:
-            res = np.zeros(X1.shape[0])
+            res = np.zeros(X1.shape[-2])
         elif res.shape != (X1.shape[-2],):
             raise ValueError
         if dres is None:
